@@ -1,7 +1,7 @@
 (* C07 — nothing is honoured after it has expired.  Statements only (credential kinds of the core model:
    authorization codes, opaque access tokens, refresh tokens; the other kinds are added with their flows). *)
 From FositeModel Require Import Base.Str Model.Scope Model.Core Model.Flows Cases.CasesHist Cases.Monitors Proofs.StepProps
-     Proofs.NowStep Proofs.MonitorC07.
+     Proofs.NowStep Proofs.LogStep Proofs.MonitorC07 Proofs.MonitorC07b.
 
 Theorem C07_code_not_redeemed_after_expiry :
   forall cfg s auth code redirect v vh,
@@ -148,3 +148,23 @@ Theorem C07_monitor_expiry_clause_holds_of_every_model_trace : forall cfg cls h 
   r <> Some "jwt_access_token_honoured_within_the_second_after_its_expiry"%string.
 Proof. exact monitor_expiry_clause_sound. Qed.
 Print Assumptions C07_monitor_expiry_clause_holds_of_every_model_trace.
+
+(* the log of issued credentials grows by exactly the credentials an operation's observation reports as minted, in that
+   order: a presentation's index (CRef i) is the position of the credential among everything the server handed out,
+   which is how the harness numbers the implementation's credentials *)
+Theorem C07_log_grows_by_the_minted_credentials : forall cfg s o,
+  exists new, log (fst (step cfg s o)) = (log s ++ new)%list /\ map i_kind new = o_minted (snd (step cfg s o)).
+Proof. exact log_step_minted. Qed.
+Print Assumptions C07_log_grows_by_the_minted_credentials.
+
+(* "lifetimes advertised in responses are consistent with the instant at which the credential stops being honoured", as the
+   monitor states it (advertised_ok: the expires_in of a token response lies within one second of the expiry that the
+   introspection of the freshly minted access token reports), together with the expiry clause: neither tag is ever
+   produced on the model's own trace, for every configuration, registration and history *)
+Theorem C07_monitor_expiry_and_advertised_clauses_hold_of_every_model_trace : forall cfg cls h jwt,
+  let r := clock_from jwt cfg cls 0%Z 0 (trace cfg (state0 (clients_of cls)) h) in
+  r <> Some "token_reported_active_after_its_expiry"%string /\
+  r <> Some "jwt_access_token_honoured_within_the_second_after_its_expiry"%string /\
+  r <> Some "advertised_expires_in_differs_from_the_honoured_expiry"%string.
+Proof. exact monitor_expiry_and_advertised_clauses_sound. Qed.
+Print Assumptions C07_monitor_expiry_and_advertised_clauses_hold_of_every_model_trace.
